@@ -50,6 +50,23 @@ Theorem C05_gslb_total : forall algo h retry sc c, returned (gres (gslb_balance 
 Proof. exact gslb_total. Qed.
 Print Assumptions C05_gslb_total.
 
+(* The hash conf is written by the loader (cluster_conf.HashConfCheck, modelled by hash_conf_check on the optional
+   fields HashStrategy / HashHeader / SessionSticky) and read by BalanceGslb.getHashKey, which dereferences *HashHeader
+   for the two CLIENTID strategies.  A conf is either rejected at load or Balance is total with it: *)
+Theorem C05_checked_hashconf_total : forall sp strat hk stp st hc algo h retry sc c,
+  hash_conf_check sp strat hk stp st = Some hc ->
+  returned (gres (gslb_balance_hc hc algo h retry sc c)).
+Proof. intros. apply gslb_hc_total. eapply check_hc_ok. eassumption. Qed.
+Print Assumptions C05_checked_hashconf_total.
+(* ... and the check cannot be weakened for ClientIdPreferred: without a header the call panics *)
+Example C05_ex_hashconf_needed : forall algo h sc c, 0 <= grmax c + gcross c ->
+  gres (gslb_balance_hc (2, 0, false) algo h 0 sc c) = RPanic.
+Proof.
+  intros algo h sc c H. unfold gslb_balance_hc, gres.
+  destruct (0 >? grmax c + gcross c) eqn:E; [|reflexivity].
+  rewrite Z.gtb_ltb in E. apply Z.ltb_lt in E. exfalso. apply (Z.lt_irrefl 0). eapply Z.le_lt_trans; eassumption.
+Qed.
+
 (* Wire level (central theorem): for EVERY input - initial conf + history of Balance / SetAvail / conn change / Update
    with scripts, or a BalanceGslb cluster + history - every Balance of the modelled history returns a backend or an
    error: prop_C05 holds of the model run.  No finding class is left: kf_C05 is 0 on every input (brr.next stays in
